@@ -22,6 +22,9 @@ def known_sequences(rng, rows, cols):
         ESC + '[' + P() + ';' + P() + 'H', ESC + '[' + P() + ';' + P() + 'f', ESC + '[' + P() + ';' + P() + 'r',
         ESC + '[' + P() + ';' + P() + 'm', ESC + '[' + P() + ';' + P() + ';' + P() + 'm', ESC + '[' + P() + ';' + P() + ';' + P() + ';' + P() + 'q',
         ESC + '[?' + P() + 'h', ESC + '[?' + P() + 'l', ESC + '7', ESC + '8', ESC + 'M', ESC + '>', ESC + '<', ESC + '=', ESC + '#8',
+        # any number of parameters before any final character (a final that takes fewer must not leave the others behind)
+        ESC + '[' + ';'.join(P() for _ in range(rng.randrange(1, 6))) + rng.choice('HfrmqABCDJKl'),
+        ESC + '[' + ';'.join(P() for _ in range(3)) + rng.choice('Hfr'),
         ESC + '(B', ESC + ')0', ESC + '[0J', ESC + '[1J', ESC + '[2J', ESC + '[0K', ESC + '[1K', ESC + '[2K', ESC + '[0;0r', ESC + '[1;1H',
     ]
 
@@ -74,6 +77,8 @@ def run_real(rows, cols, encoding, chunks, feed='write'):
         for ch in chunks:
             if feed == 'write':
                 t.write(ch)
+            elif feed == 'write+flush':
+                t.write(ch); t.flush()          # what spawn._log does with a log file: the terminal may be one
             elif feed == 'process_list':
                 t.process_list(ch)
             else:
@@ -120,7 +125,7 @@ def run(ctx):
     cmds = ['a', '\r', '\n', '\x08', ESC + '[H', ESC + '[2;3H', ESC + '[9;9H', ESC + '[0;0H', ESC + '[A', ESC + '[B', ESC + '[C', ESC + '[D',
             ESC + '[5A', ESC + '[0B', ESC + '[J', ESC + '[1J', ESC + '[2J', ESC + '[K', ESC + '[1K', ESC + '[2K', ESC + '[3K', ESC + '[r',
             ESC + '[2;2r', ESC + '[0;0r', ESC + '[2;1r', ESC + 'M', ESC + '7', ESC + '8', ESC + '[1;2;3m', ESC + '[?25h', ESC + '[4l', ESC + '[1;',
-            ESC + '[;', ESC + '[x', ESC + ESC, ESC + '#3', ESC + '(A', ESC + '[1;2;x', ESC + '[1;2;3;4q', 'é',
+            ESC + '[;', ESC + '[x', ESC + ESC, ESC + '#3', ESC + '(A', ESC + '[1;2;x', ESC + '[1;2;3;4q', 'é', ESC + '[1;2;3H', ESC + '[9;1;2;3r', ESC + '[1;2;3f',
             '\x18', ESC + '[12\x18', ESC + '[3;4\x1a', ESC + '[?25\x18', '\t', '\x07', '\x0e']
     depth = 2 if ctx.quick() else 3
     nex = 0
@@ -195,7 +200,7 @@ def run(ctx):
         nseen += 1
         if msg is None and not real.startswith('raises') and nseen % 3 == 0:
             # the other entry points that feed the terminal must agree with write()
-            feed = ('process_list', 'process')[(nseen // 3) % 2]
+            feed = ('process_list', 'process', 'write+flush')[(nseen // 3) % 3]
             other = run_real(rows, cols, e, chunks, feed)[0]
             if other != real:
                 msg = 'fed through %s() gives %s, through write() the terminal is different' % (feed, 'an exception (%s)' % other.split(':')[1] if other.startswith('raises') else 'another terminal')
